@@ -247,11 +247,11 @@ def r09_4(ctx):
     rep.rule("R09.4", "backward sweep (T = 4): pieces (-ts[i], -ts[i-1]) for i = T-1..1 once each, on ReverseBrownian("
                       "ctx.bm); state reset to ys[i-1]; cotangent grad_ys[i-1] added once; grad_ys[-1] seeds; R09.3 "
                       "saved-tensor layout")
-    for saved in (False, True):
-        r = eval_backward(model, 4, saved)
+    for saved, T in [(s, t) for s in (False, True) for t in ((4,) if ctx.tier == "quick" else (2, 3, 4, 6))]:
+        r = eval_backward(model, T, saved)
         bwd, hooks, T = r["bwd"], r["hooks"], r["T"]
         rep.analysed(bwd)
-        tag = "extras-saved" if saved else "plain"
+        tag = ("extras-saved" if saved else "plain") + f"/T={T}"
         aps = hooks.applies
         rep.check(len(aps) == T - 1, "R09.4", astq.loc(bwd), f"{bwd.key}::R09.4::pieces::{tag}",
                   f"the backward pass solves {len(aps)} adjoint pieces for {T} output times (expected {T - 1}): an output "
